@@ -159,6 +159,15 @@ def check_pool_paths(ctx, n, paths_acts, paths_states, results, stats):
             if o["intake"] == "dropped":
                 ctx.infra("model drift: a message of the model was dropped by the real intake signature check: %s" % a)
                 return
+            # ---- the oracle first: it only looks at the real pool (real signatures), never at the model
+            if o["cd"] and len(o["valid"]) < q:
+                stats["unsound"] += 1
+                k = classify(n, o)
+                old = stats.setdefault("viol", {}).get(k)
+                if old is None or len(replay["steps"]) < len(old[1]["steps"]):
+                    stats["viol"][k] = ({"N": n, "declared": {"proposer": o["cdp"], "empty": o["cde"]}, "valid_signers": o["valid"],
+                                         "quorum_required": q, "instances": 0}, replay)
+                stats.setdefault("violn", {})[k] = stats.setdefault("violn", {}).get(k, 0) + 1
             mp, rp = norm_model_pool(st), norm_real_pool(o)
             if mp != rp:
                 stats["drift"] += 1
@@ -169,16 +178,6 @@ def check_pool_paths(ctx, n, paths_acts, paths_states, results, stats):
             if o["cd"]:
                 stats["done"] += 1
                 key = (o["cdp"], o["cde"])
-                # ---- the oracle: observed on the real pool with real signatures
-                if len(o["valid"]) < q:
-                    stats["unsound"] += 1
-                    k = classify(n, o)
-                    # one report per structural key: the shortest replay seen
-                    old = stats.setdefault("viol", {}).get(k)
-                    if old is None or len(replay["steps"]) < len(old[1]["steps"]):
-                        stats["viol"][k] = ({"N": n, "declared": {"proposer": o["cdp"], "empty": o["cde"]}, "valid_signers": o["valid"],
-                                             "quorum_required": q, "instances": 0}, replay)
-                    stats.setdefault("violn", {})[k] = stats.setdefault("violn", {}).get(k, 0) + 1
                 if key not in res:
                     stats["drift"] += 1
                     if stats["drift"] <= 3:
